@@ -52,6 +52,7 @@ Judge(e) == CASE e.ev = "q_epoch" -> JudgeCur(e)
               [] e.ev = "em_update_config" -> JudgeUpd(e)
               [] e.ev = "em_instantiate" -> JudgeInst(e)
               [] e.ev = "reset" -> NoGuards
+              [] e.ev = "driver_abort" -> [ M_driver_completed |-> Must(FALSE) ]
 
 NoGhost == [set |-> FALSE]
 Init == l = 1 /\ cnt = NoGuards /\ gh = NoGhost
